@@ -185,6 +185,10 @@ def setCtx (σ : State) (c : Nat) (x : Ctx) : State :=
 def setInner (σ : State) (t : Nat) (x : Option Nat) : State :=
   { σ with inner := fun i => if i = t then x else σ.inner i }
 
+/-- a new task record; its id joins `tids` -/
+def addTask (σ : State) (t : Nat) (x : Task) : State :=
+  { setTask σ t x with tids := t :: σ.tids }
+
 /-- mark the context of a scope as cancelled by a `Ctx::cancel` call -/
 def causeCtx (σ : State) (c : Nat) : State :=
   setCtx σ c { σ.ctx c with cause := true }
@@ -216,7 +220,7 @@ def resOf (slot : Slot) (rootOut : Out) (rootVal : Nat) : Res :=
 def outIsPanic (o : Out) : Bool := o == .panic
 
 /-- the enabling condition of an event -/
-def guard (σ : State) : Event → Bool
+def enabled (σ : State) : Event → Bool
   | .ctxnew c p _ =>
     !(σ.ctx c).present && (σ.ctx p).present
   | .make s c p owner root =>
@@ -278,11 +282,11 @@ def apply (σ : State) : Event → State
     let σ3 := match owner with
       | none => σ2
       | some o => setInner σ2 o (some s)
-    { setTask σ3 root { scope := s, parent := none, reqMain := true, phase := .pending } with tids := root :: σ.tids }
+    addTask σ3 root { scope := s, parent := none, reqMain := true, phase := .pending }
   | .spawn p c req =>
     let s := (σ.task p).scope
     let σ1 := setScope σ s { σ.scope s with termLow := (σ.scope s).termLow + 1 }
-    { setTask σ1 c { scope := s, parent := some p, reqMain := req, phase := .pending } with tids := c :: σ.tids }
+    addTask σ1 c { scope := s, parent := some p, reqMain := req, phase := .pending }
   | .start c main =>
     let t := σ.task c
     let sc := σ.scope t.scope
@@ -326,7 +330,7 @@ def apply (σ : State) : Event → State
 
 /-- one transition: `none` = the model does not allow this event here -/
 def step? (σ : State) (e : Event) : Option State :=
-  if guard σ e then some (apply σ e) else none
+  if enabled σ e then some (apply σ e) else none
 
 /-- replay of a log -/
 def run (σ : State) : List Event → Option State
